@@ -43,8 +43,8 @@ func replayViolation(prop string, v vioRec) (string, replayResult) {
 	rf := &ReplayFile{Property: prop, Unit: u.Name, Dir: u.Dir, Pkg: u.Pkg, Overlay: u.Overlay, Harness: u.Harness, Sets: v.sets, Kind: v.v.Kind, ID: v.v.ID, Msg: v.v.Msg, Witness: v.v.Witness, Env: v.v.EnvNondets, HangIsBug: u.HangIsBug}
 	if rf.Dir == "" {
 		rf.Dir = repoRoot()
-	} else if !filepath.IsAbs(rf.Dir) {
-		rf.Dir = filepath.Join(verifRoot(), rf.Dir)
+	} else {
+		rf.Dir = harnessPath(rf.Dir)
 	}
 	name := nonWord.ReplaceAllString(fmt.Sprintf("%s-%s-%s-%s", prop, u.Name, v.v.Kind, v.v.ID), "_")
 	if len(name) > 120 {
@@ -77,9 +77,7 @@ func runReplay(rf *ReplayFile) replayResult {
 	repl := map[string]string{}
 	pkgName := ""
 	for _, d := range rf.Overlay {
-		if !filepath.IsAbs(d) {
-			d = filepath.Join(verifRoot(), d)
-		}
+		d = harnessPath(d)
 		files, _ := filepath.Glob(filepath.Join(d, "*.go"))
 		sort.Strings(files)
 		inPlace := filepath.Clean(d) == filepath.Clean(pkgDir)
